@@ -400,6 +400,18 @@ def c17_excel_eam_second_write_after_failure():
     return all(n == 0 for _, n in res), res
 
 
+@demo
+def c07_polynomial_derivatives_at_zero():
+    from atsim.potentials import potentialfunctions as pf
+    out = []
+    for f in (pf.polynomial.deriv, pf.polynomial.deriv2):
+        try:
+            out.append(f(0.0, 1.0, 2.0, 3.0))
+        except ZeroDivisionError as e:
+            out.append("ZeroDivisionError: %s" % e)
+    return out == [2.0, 6.0], out
+
+
 if __name__ == "__main__":
     want = sys.argv[1:]
     nbad = 0
